@@ -126,6 +126,10 @@ TEMPLATES = [
      [dict(t=1, n=3, v=b'abc', f=5), dict(t=2, n=2, v=[258, 3], f=300), dict(t=0, n=9, v=None, f=None), dict(t=7, n=0, v=None, f=0), dict(t=True, n=1, v=b'z', f=1)]),
     ('Array(2, Struct("k"/VarInt, "b"/Switch(this.k, {0: Struct("n"/Int16ul, "d"/Bytes(this.n)), 300: Padded(4, Byte)}, default=Int32sb)))',
      [[dict(k=0, b=dict(n=2, d=b'hi')), dict(k=300, b=7)], [dict(k=5, b=-9), dict(k=0, b=dict(n=0, d=b''))]]),
+    # falsy values where a default or a rebuilt value could take their place
+    ('Struct("a"/Default(Byte, 7), "b"/Default(Flag, True), "s"/Default(CString("utf8"), "x"), "z"/Default(Int16sb, -1), "e"/Default(Bytes(0), None))',
+     [dict(a=0, b=False, s='', z=0, e=b''), dict(a=None, b=None, s=None, z=None, e=b''), dict(a=5, b=True, s='q', z=-1, e=b'')]),
+    ('Sequence(Default(VarInt, 300), Default(PascalString(Byte, "ascii"), "dflt"), Default(GreedyRange(Byte), [1]))', [[0, '', []], [None, None, None]]),
     # alternatives that fail AFTER having written something, followed by something shorter than what they wrote
     ('Struct("hdr"/Optional(Struct("magic"/Const(b"MZ"), "ver"/Byte)), "rest"/GreedyBytes)', [dict(hdr=None, rest=b''), dict(hdr=None, rest=b'x'), dict(hdr=dict(ver=1), rest=b'ab')]),
     ('Struct("a"/Select(Sequence(Const(b"ABCD"), Int16ub), Byte), "t"/GreedyBytes)', [dict(a=7, t=b''), dict(a=[None, 5], t=b'z')]),
